@@ -81,11 +81,18 @@ impl CornerRadii {
         }
 
         if corner_size > size {
+            // The intermediate product doesn't fit into 32 bits for large rectangles.
+            let scale = |radius: Size| {
+                let scale = |r: u32| (u64::from(r) * u64::from(size) / u64::from(corner_size)) as u32;
+
+                Size::new(scale(radius.width), scale(radius.height))
+            };
+
             Self {
-                top_left: (self.top_left * size) / corner_size,
-                top_right: (self.top_right * size) / corner_size,
-                bottom_right: (self.bottom_right * size) / corner_size,
-                bottom_left: (self.bottom_left * size) / corner_size,
+                top_left: scale(self.top_left),
+                top_right: scale(self.top_right),
+                bottom_right: scale(self.bottom_right),
+                bottom_left: scale(self.bottom_left),
             }
         } else {
             self
